@@ -7,7 +7,7 @@
    (hresps_of) of the library responses.  So every theorem about library histories (C01, C02,
    C07-C13, C18) is a theorem about what HTTP clients observe. *)
 From TSS Require Import AStore Http proofs.ListAux proofs.Chain proofs.Steps proofs.Sim proofs.Refine proofs.Inv
-  proofs.Agree proofs.Hist proofs.UrgencyArith proofs.HttpProps proofs.HttpReach.
+  proofs.Agree proofs.Hist proofs.Cas proofs.RefineInMem proofs.UrgencyArith proofs.HttpProps proofs.HttpReach.
 From Coq Require Import Lia.
 Open Scope N_scope.
 
@@ -366,4 +366,93 @@ Proof.
   assert (HorH : horacle_ok (h1 ++ (av, E) :: h2)) by (apply horacle_ok_from_app in Hor; tauto).
   rewrite (hresponses_agree k cfg allow _ Hcfg Hor), (hresponses_agree k cfg allow _ Hcfg HorH) in *.
   apply (http_history_immutable_a cfg allow h1 h2 c p cs E E' ct0 cs0 v xs Hcfg Hc Hb Hor Hnth).
+Qed.
+
+
+Lemma classic_cas (acc : list version) (p : id) : (acc = [] \/ p = latest_of acc) \/ ~ (acc = [] \/ p = latest_of acc).
+Proof.
+  destruct acc as [|v l]; [left; left; reflexivity|].
+  destruct (N.eq_dec p (latest_of (v :: l))) as [He|Hne]; [left; right; exact He|].
+  right. intros [H|H]; [discriminate|contradiction].
+Qed.
+
+(* ---- another HTTP-level corollary: add-version is a compare-and-append (C02), as HTTP clients
+   see it.  `acc` is the list of versions accepted for c so far, read off the library view of the
+   HTTP history (an accepted add-version request is one answered 200 with X-Version-Id). ---- *)
+Theorem http_add_version_cas_a cfg allow h c p cs E :
+  cfg_ok cfg -> client_id_header allow (COk c) = inl c -> body_refused cs = false ->
+  let av := mkReq MPost (PAddVersion (IdOk p)) (COk c) CTHistory cs in
+  horacle_ok (h ++ [(av, E)]) ->
+  let acc := accepted c (lib_of allow h) (aresponses cfg (lib_of allow h)) in
+  exists r, haresponses cfg allow (h ++ [(av, E)]) = haresponses cfg allow h ++ [r] /\
+    (((acc = [] \/ p = latest_of acc) /\ exists xs, r = mkResp 200 (Some (e_fresh E)) None xs None [] true) \/
+     (~ (acc = [] \/ p = latest_of acc) /\ r = mkResp 409 None (Some (latest_of acc)) None None [] true)).
+Proof.
+  intros Hcfg Hc Hb av Hor acc.
+  assert (HorH : horacle_ok h) by (apply horacle_ok_from_app in Hor; tauto).
+  set (d := body_of cs). set (avop := (OAddVersion c p d, E)). set (ens := (OEnsure c, noenv)).
+  assert (Hlav : lib_of_req allow av E = [ens; avop]).
+  { unfold lib_of_req, av. cbn [rq_cid rq_method rq_path rq_ctype rq_chunks]. rewrite Hc, Hb. reflexivity. }
+  set (L := lib_of allow h) in *.
+  assert (HLf : lib_of allow (h ++ [(av, E)]) = (L ++ [ens]) ++ [avop]).
+  { rewrite lib_of_app. cbn [lib_of]. rewrite Hlav, app_nil_r. fold L. rewrite <- app_assoc. reflexivity. }
+  destruct (http_is_lib_a cfg allow _ Hcfg [] a_empty (Inv_empty []) HorH) as [HrH _].
+  destruct (http_is_lib_a cfg allow _ Hcfg [] a_empty (Inv_empty []) Hor) as [HrF _].
+  unfold haresponses. rewrite HrF, HrH. clear HrF HrH. fold L.
+  assert (HolF : oracle_ok ((L ++ [ens]) ++ [avop])) by (rewrite <- HLf; apply (lib_oracle allow _ [] []); [auto|exact Hor]).
+  assert (HolE : oracle_ok (L ++ [ens])) by (apply oracle_ok_from_app in HolF; tauto).
+  assert (HolL : oracle_ok L) by (apply oracle_ok_from_app in HolE; tauto).
+  (* the state after the history, and after create-if-absent *)
+  set (a1 := snd (arun cfg a_empty L)).
+  pose proof (reachable_inv cfg L HolL) as HI1. fold a1 in HI1.
+  assert (Hok1 : a_ok a1 = true) by (destruct HI1; assumption).
+  set (a2 := snd (arun cfg a_empty (L ++ [ens]))).
+  pose proof (reachable_inv cfg (L ++ [ens]) HolE) as HI2. fold a2 in HI2.
+  assert (Ha2 : a2 = match a_cl a1 c with Some _ => a1 | None => a_set a1 c (mkCS nil_id None []) (a_allids a1) end).
+  { unfold a2. rewrite arun_app. cbn [snd]. fold a1. unfold ens. rewrite arun_one. rewrite ensure_step by exact Hok1. reflexivity. }
+  assert (Hf2 : fresh_ok (used_after [] (L ++ [ens])) (OAddVersion c p d) E).
+  { apply oracle_ok_from_app in HolF. destruct HolF as [_ [Hf _]]. exact Hf. }
+  (* the client's record after create-if-absent holds exactly the accepted versions *)
+  assert (Hx : exists x, a_cl a2 c = Some x /\ a_vers x = acc).
+  { pose proof (stored_is_accepted cfg L c HolL) as Hst. fold a1 in Hst. fold acc in Hst. unfold vers_a in Hst.
+    rewrite Ha2. destruct (a_cl a1 c) as [x|] eqn:Hc1.
+    - exists x. rewrite Hc1. auto.
+    - eexists. rewrite a_set_lookup, N.eqb_refl. split; [reflexivity|exact Hst]. }
+  destruct Hx as (x & Hx & Hvx).
+  destruct (cas_step cfg _ a2 c x p d E HI2 Hx Hf2) as [Hacc Hrej]. rewrite Hvx in Hacc, Hrej.
+  (* responses of the library history *)
+  assert (HR : fst (arun cfg a_empty ((L ++ [ens]) ++ [avop])) =
+               fst (arun cfg a_empty L) ++ [RUnit; fst (astep cfg a2 (OAddVersion c p d) E)]).
+  { change (fst (arun cfg a_empty ((L ++ [ens]) ++ [avop]))) with (aresponses cfg ((L ++ [ens]) ++ [avop])).
+    unfold avop. rewrite last_step_a. fold a2. unfold ens. rewrite last_step_a. fold a1.
+    rewrite ensure_step by exact Hok1. cbn [fst]. rewrite <- app_assoc. reflexivity. }
+  rewrite HLf, HR.
+  set (R := fst (arun cfg a_empty L)) in *.
+  assert (HlenR : length R = length L) by apply arun_length.
+  rewrite hresps_of_app. fold L. rewrite hresps_of_tail by (fold L; lia).
+  rewrite skipn_app_le by lia. rewrite <- HlenR, skipn_all, app_nil_l.
+  cbn [hresps_of]. rewrite Hlav. cbn [length firstn skipn hresp_of last].
+  eexists. split; [reflexivity|].
+  destruct (classic_cas acc p) as [Hyes|Hno].
+  - left. split; [exact Hyes|]. rewrite (Hacc Hyes). cbn [fst encode].
+    rewrite urgency_no_overflow by exact Hcfg. cbn [urg_header].
+    match goal with |- context [match ?u with UNone => _ | ULow => _ | UHigh => _ end] => destruct u end; eexists; reflexivity.
+  - right. split; [exact Hno|]. rewrite (Hrej Hno). reflexivity.
+Qed.
+
+Theorem http_add_version_cas k cfg allow h c p cs E :
+  cfg_ok cfg -> client_id_header allow (COk c) = inl c -> body_refused cs = false ->
+  let av := mkReq MPost (PAddVersion (IdOk p)) (COk c) CTHistory cs in
+  horacle_ok (h ++ [(av, E)]) ->
+  let acc := accepted c (lib_of allow h) (responses k cfg (lib_of allow h)) in
+  exists r, hresponses k cfg allow (h ++ [(av, E)]) = hresponses k cfg allow h ++ [r] /\
+    (((acc = [] \/ p = latest_of acc) /\ exists xs, r = mkResp 200 (Some (e_fresh E)) None xs None [] true) \/
+     (~ (acc = [] \/ p = latest_of acc) /\ r = mkResp 409 None (Some (latest_of acc)) None None [] true)).
+Proof.
+  intros Hcfg Hc Hb av Hor acc.
+  assert (HorH : horacle_ok h) by (apply horacle_ok_from_app in Hor; tauto).
+  assert (HolL : oracle_ok (lib_of allow h)) by (apply (lib_oracle allow h [] []); [auto|exact HorH]).
+  unfold acc. rewrite (responses_agree k cfg _ HolL).
+  rewrite (hresponses_agree k cfg allow _ Hcfg Hor), (hresponses_agree k cfg allow _ Hcfg HorH).
+  apply (http_add_version_cas_a cfg allow h c p cs E Hcfg Hc Hb Hor).
 Qed.
